@@ -12,6 +12,7 @@ use std::sync::Mutex;
 use std::time::Instant;
 
 pub const VERIF_ROOT: &str = "/verif";
+pub static PANIC_LOG: Mutex<Vec<String>> = Mutex::new(Vec::new());
 
 // ---------------------------------------------------------------- scratch
 
